@@ -175,12 +175,20 @@ impl Net {
         self.deliver(Reply { bytes: bytes.to_vec(), fault: None });
     }
 
+    /// The peer closes the stream here: bytes pushed later are never delivered.
     pub fn set_eof(&self) {
-        self.deliver(Reply { bytes: vec![], fault: Some(Fault::Eof) });
+        let mut s = self.lock();
+        let at = s.delivered + s.inbound.len();
+        s.fault_after = Some((at, Fault::Eof));
+        self.update(&s);
     }
 
+    /// The connection is reset here: bytes pushed later are never delivered.
     pub fn set_reset(&self) {
-        self.deliver(Reply { bytes: vec![], fault: Some(Fault::Reset) });
+        let mut s = self.lock();
+        let at = s.delivered + s.inbound.len();
+        s.fault_after = Some((at, Fault::Reset));
+        self.update(&s);
     }
 
     pub fn set_budget(&self, b: Option<usize>) {
